@@ -79,6 +79,7 @@ class Engine(object):
     self.path_checked = False
     self.notes = []
     self.hbits = []
+    self._snap = (self.stats['checks'], self.stats['checks_trivial'], self.stats['checks_unsat'])
 
   def add(self, *cs):
     if self.mode != 'sym':
@@ -165,22 +166,41 @@ class Engine(object):
   # ---------------------------------------------------------------- harness API
   def hdecide(self, cond):
     """a decision taken by the harness itself (never inside scales code).  The first D of them
-    select the shard of a job that is split over several workers."""
+    select the shard of a job that is split over several workers: the D bits are read as a
+    binary fraction and shard i owns the interval [i/n, (i+1)/n); a path is abandoned as soon as
+    its interval no longer meets the shard's."""
     b = self.decide(cond) if not isinstance(cond, bool) else cond
-    if self.shard is not None and not isinstance(cond, bool):
-      i, n, D = self.shard
+    if self.shard is not None and not isinstance(cond, bool) and len(self.hbits) < self.shard[2]:
       self.hbits.append(b)
-      if len(self.hbits) == D:
-        idx = int(''.join('1' if x else '0' for x in self.hbits), 2) % n
-        if idx != i:
-          self.pending = []
-          raise Pruned()
+      lo, hi = self._shard_range()
+      x, size = self._path_range()
+      if x + size <= lo or x >= hi:
+        self.pending = []
+        raise Pruned()
     return b
+
+  def _shard_range(self):
+    i, n, D = self.shard
+    return (i << D) // n + (1 if ((i << D) % n) else 0), ((i + 1) << D) // n + (1 if (((i + 1) << D) % n) else 0)
+
+  def _path_range(self):
+    i, n, D = self.shard
+    j = len(self.hbits)
+    x = 0
+    for bit in self.hbits: x = (x << 1) | (1 if bit else 0)
+    return x << (D - j), 1 << (D - j)
+
+  def _maybe_mine(self):
+    if self.shard is None: return True
+    lo, hi = self._shard_range()
+    x, size = self._path_range()
+    return not (x + size <= lo or x >= hi)
 
   def _mine(self):
     if self.shard is None: return True
-    i, n, D = self.shard
-    return len(self.hbits) >= D or i == 0
+    lo, hi = self._shard_range()
+    x, size = self._path_range()
+    return lo <= x < hi
 
   def assume(self, cond):
     self.flush_checks()
@@ -212,6 +232,8 @@ class Engine(object):
     """record an assertion; decided at path end (or before the next assume)."""
     from .values import SymBool
     self.path_checked = True
+    if self.mode == 'sym' and not self._maybe_mine():
+      return
     if self.mode == 'concrete':
       ok = bool(cond)
       self.concrete_log.append((name, ok))
@@ -314,16 +336,18 @@ def set_engine(e):
   ENG = e
 
 
-def explore(body, max_paths=10**7, stop_on_failure=True, first_prefix=None, soft_prefixes=(), shard=None):
+def explore(body, max_paths=10**7, stop_on_failure=True, first_prefix=None, soft_prefixes=(), shard=None, max_seconds=None):
   """Run body() over every feasible path.  body() builds fresh state, runs the real code and
   calls check()/cover().  Returns the Engine with statistics, failures, covers."""
   E = Engine(); set_engine(E)
   E.level_complete = False
   E.shard = shard
+  t_start = time.perf_counter()
   if first_prefix: E.work = [list(first_prefix)]
   while E.work:
     pre = E.work.pop()
     E.begin(pre)
+    pruned_now = False
     try:
       body()
     except Infeasible:
@@ -336,7 +360,10 @@ def explore(body, max_paths=10**7, stop_on_failure=True, first_prefix=None, soft
       E.stats['pruned'] = E.stats.get('pruned', 0) + 1
       E.path_checked = False; E.path_covers = set()
       E.stats['paths'] -= 1
-    if not E._mine():
+      pruned_now = True
+    if pruned_now or not E._mine():
+      E.stats['checks'], E.stats['checks_trivial'], E.stats['checks_unsat'] = E._snap
+    if not pruned_now and not E._mine():
       E.pending = []; E.path_checked = False; E.path_covers = set(); E.stats['paths'] -= 1
     E.end_path()
     E.started = True; E.level_complete = True
@@ -350,6 +377,8 @@ def explore(body, max_paths=10**7, stop_on_failure=True, first_prefix=None, soft
     if stop_on_failure and any(not f.name.startswith(tuple(soft_prefixes)) for f in E.failures): break
     if len(E.failures) > 50: break
     if E.inconclusive: break
+    if max_seconds and time.perf_counter() - t_start > max_seconds:
+      E.inconclusive.append('job time budget %ds exhausted after %d paths' % (max_seconds, E.stats['paths'])); break
     if E.stats['paths'] >= max_paths:
       E.inconclusive.append('path budget %d exhausted' % max_paths); break
   return E
